@@ -122,7 +122,7 @@ func (r *Runner) queryTimeout() int {
 	if r.tier == "thorough" {
 		return 60
 	}
-	return 10
+	return 15
 }
 
 // contractsFor lists the function contracts tagged with prop ("" = all with a body in the repo).
